@@ -7,7 +7,9 @@ use rand_chacha::ChaCha20Rng;
 use rand_core::SeedableRng;
 use sapling::prover::mock::{MockOutputProver, MockSpendProver};
 use vcore::{catch, panic_site, vensure, vfail, Fail};
-use zcash_primitives::transaction::builder::{BuildConfig, BuildResult, Builder, BundlePadding, Error as BErr, FeeError as BFeeError, PcztResult};
+use zcash_primitives::transaction::builder::{
+    BuildConfig, BuildResult, Builder, BundlePadding, DeferredPcztBuilder, Error as BErr, FeeError as BFeeError, PcztResult,
+};
 use zcash_primitives::transaction::fees::{fixed, zip317, FeeRule};
 use zcash_protocol::consensus::BlockHeight;
 use zcash_protocol::local_consensus::LocalNetwork;
@@ -35,6 +37,11 @@ pub struct World {
 
 pub fn zat(v: u64) -> Zatoshis {
     Zatoshis::from_u64(v).expect("harness: value within MAX_MONEY")
+}
+
+/// `zcash_script` view of a redeem script taken from the chain / the wallet.
+pub fn redeem_from_bytes(b: &[u8]) -> zcash_script::script::FromChain {
+    zcash_script::script::FromChain::parse(&zcash_script::script::Code(b.to_vec())).expect("harness: redeem script parses")
 }
 
 pub fn script_from_bytes(b: &[u8]) -> Script {
@@ -67,8 +74,21 @@ pub fn build_world(c: &Case, p: &Plan) -> World {
             h[..8].copy_from_slice(&(i as u64 + 1).to_le_bytes());
             h[8..24].copy_from_slice(&c.seed[..16]);
             let op = OutPoint::new(h, (i as u32 * 3) % 7);
-            let owner = if x.wrong_script { (x.key as usize + 1) % k.t.len() } else { x.key as usize };
-            let coin = TxOut::new(zat(p.val[T_IN][i]), script_from_bytes(&p2pkh_script(&k.t[owner].pkh)));
+            let script = match (&x.spend, x.wrong_script) {
+                (TSpend::P2pkh, false) => p2pkh_script(&k.t[x.key as usize].pkh),
+                // another key's P2PKH script, or a P2SH script over the right key hash
+                (TSpend::P2pkh, true) if x.key & 1 == 0 => p2pkh_script(&k.t[(x.key as usize + 1) % 6].pkh),
+                (TSpend::P2pkh, true) => p2sh_script(&k.t[x.key as usize].pkh),
+                (_, false) => p2sh_script(&hash160(p.redeem[i].as_ref().expect("p2sh has a redeem script"))),
+                // P2SH of another script, or a P2PKH script over the right script hash
+                (_, true) if x.key & 1 == 0 => {
+                    let mut other = p.redeem[i].clone().expect("p2sh has a redeem script");
+                    *other.last_mut().expect("non-empty") ^= 1;
+                    p2sh_script(&hash160(&other))
+                }
+                (_, true) => p2pkh_script(&hash160(p.redeem[i].as_ref().expect("p2sh has a redeem script"))),
+            };
+            let coin = TxOut::new(zat(p.val[T_IN][i]), script_from_bytes(&script));
             (op, coin)
         })
         .collect();
@@ -103,6 +123,10 @@ pub enum RErr {
     Balance(String),
     Target(Option<String>),
     TMissingKey,
+    TUnsupportedScript,
+    /// outpoints listed by `zip317::FeeError::UnknownP2shInputs`
+    UnknownP2sh(Vec<OutPoint>),
+    DeferralUnsupported,
     SapZip212,
     SapMissingKey,
     Other(String),
@@ -111,20 +135,32 @@ pub enum RErr {
 pub enum Outcome {
     Built(Box<BuildResult>),
     Pczt(Box<PcztResult<LocalNetwork>>),
+    /// result of `DeferredPcztBuilder::build_for_pczt` and the fee `get_fee` announced before
+    DeferredPczt(Box<PcztResult<LocalNetwork>>, u64),
     Err(RErr),
     Panic(String),
 }
 
 pub trait FeKind: std::fmt::Debug {
     fn overflow(&self) -> bool;
+    fn unknown_p2sh(&self) -> Option<Vec<OutPoint>>;
 }
 impl FeKind for zip317::FeeError {
     fn overflow(&self) -> bool {
         matches!(self, zip317::FeeError::Balance(BalanceError::Overflow))
     }
+    fn unknown_p2sh(&self) -> Option<Vec<OutPoint>> {
+        match self {
+            zip317::FeeError::UnknownP2shInputs(v) => Some(v.clone()),
+            _ => None,
+        }
+    }
 }
 impl FeKind for Infallible {
     fn overflow(&self) -> bool {
+        match *self {}
+    }
+    fn unknown_p2sh(&self) -> Option<Vec<OutPoint>> {
         match *self {}
     }
 }
@@ -136,6 +172,8 @@ fn map_err<FE: FeKind>(e: BErr<FE>) -> RErr {
         BErr::Fee(BFeeError::FeeRule(fe)) => {
             if fe.overflow() {
                 RErr::FeeOverflow
+            } else if let Some(v) = fe.unknown_p2sh() {
+                RErr::UnknownP2sh(v)
             } else {
                 RErr::Other(format!("Fee(FeeRule({fe:?}))"))
             }
@@ -143,6 +181,8 @@ fn map_err<FE: FeKind>(e: BErr<FE>) -> RErr {
         BErr::Balance(b) => RErr::Balance(format!("{b:?}")),
         BErr::TargetIncompatible(_, _, pool) => RErr::Target(pool.map(|p| p.to_string())),
         BErr::TransparentBuild(zcash_transparent::builder::Error::MissingSigningKey) => RErr::TMissingKey,
+        BErr::TransparentBuild(zcash_transparent::builder::Error::UnsupportedScript) => RErr::TUnsupportedScript,
+        BErr::AnchorDeferralUnsupported(_) => RErr::DeferralUnsupported,
         BErr::SaplingBuild(sapling::builder::Error::PcztRequiresZip212) => RErr::SapZip212,
         BErr::SaplingBuild(sapling::builder::Error::MissingSpendingKey) => RErr::SapMissingKey,
         other => RErr::Other(format!("{other:?}")),
@@ -251,10 +291,13 @@ fn drive(c: &Case, p: &Plan, w: &World) -> Result<Option<Builder<LocalNetwork, (
     for (i, x) in c.t_in.iter().enumerate() {
         let (op, coin) = w.coins[i].clone();
         let pk = k.t[x.key as usize].pk;
-        let got = if x.via_info {
-            TransparentInputInfo::from_parts(op, coin, SpendInfo::P2pkh { pubkey: pk }).map(|info| b.add_transparent_input(info)).map_err(classify_t)
-        } else {
-            b.add_transparent_p2pkh_input(pk, op, coin).map_err(classify_t)
+        let got = match (&p.redeem[i], x.via_info) {
+            (None, true) => TransparentInputInfo::from_parts(op, coin, SpendInfo::P2pkh { pubkey: pk }).map(|info| b.add_transparent_input(info)).map_err(classify_t),
+            (None, false) => b.add_transparent_p2pkh_input(pk, op, coin).map_err(classify_t),
+            (Some(r), true) => TransparentInputInfo::from_parts(op, coin, SpendInfo::P2sh { redeem_script: redeem_from_bytes(r) })
+                .map(|info| b.add_transparent_input(info))
+                .map_err(classify_t),
+            (Some(r), false) => b.add_transparent_p2sh_input(redeem_from_bytes(r), op, coin).map_err(classify_t),
         };
         check_add("transparent input", i, p.exp[T_IN][i], got)?;
     }
@@ -327,20 +370,13 @@ where
             Ok(r) => Outcome::Pczt(Box::new(r)),
             Err(e) => Outcome::Err(map_err(e)),
         },
+        Engine::Deferred => unreachable!("deferred cases use drive_deferred"),
         Engine::Build | Engine::Prove => {
-            // signing keys: every key in use (minus the deliberately omitted one) plus an unrelated
-            // one, in a case-dependent order
-            let mut tk: Vec<usize> = p.accepted(T_IN).map(|i| c.t_in[i].key as usize).collect();
-            tk.push(6);
-            tk.sort();
-            tk.dedup();
-            tk.retain(|x| Some(*x) != p.omit_tkey);
-            if c.key_perm & 1 == 1 {
-                tk.reverse();
-            }
+            // signing keys: as planned (every key in use minus the deliberately omitted ones, plus
+            // an unrelated one, in a case-dependent order)
             let mut set = TransparentSigningSet::new();
-            for i in tk {
-                set.add_key(k.t[i].sk);
+            for i in &p.sign_set {
+                set.add_key(k.t[*i].sk);
             }
             let mut sk: Vec<usize> = p.accepted(S_IN).map(|i| c.s_in[i].key as usize).collect();
             sk.push(4);
@@ -369,8 +405,94 @@ where
     }
 }
 
+enum DeferredStep {
+    Ready(Box<DeferredPcztBuilder<LocalNetwork>>),
+    Refused(RErr),
+}
+
+/// `DeferredPcztBuilder`: construction and the add calls, each compared with the plan.
+fn drive_deferred(c: &Case, p: &Plan, w: &World) -> Result<DeferredStep, Fail> {
+    let k = keys();
+    let mut b = match DeferredPcztBuilder::new::<Infallible>(w.net, BlockHeight::from_u32(c.height), padding(c.orc_pad), padding(c.iro_pad)) {
+        Ok(b) => {
+            vensure!(p.deferral_ok, "deferred-builder-accepted-pre-v6-height", "DeferredPcztBuilder::new succeeded under {:?} whose transaction format is not v6", p.br);
+            b
+        }
+        Err(e) => {
+            let e = map_err(e);
+            vensure!(!p.deferral_ok, "deferred-builder-refused-v6-height", "DeferredPcztBuilder::new failed with {e:?} under {:?}", p.br);
+            return Ok(DeferredStep::Refused(e));
+        }
+    };
+    for (i, x) in c.o_in.iter().enumerate() {
+        let got = b.add_orchard_spend::<Infallible>(k.o[x.key as usize].fvk.clone(), w.o_notes[i].note).map_err(classify_add);
+        check_add("orchard spend", i, p.exp[O_IN][i], got)?;
+    }
+    for (i, x) in c.o_out.iter().enumerate() {
+        let ok = &k.o[x.key as usize];
+        let to = ok.address(x.internal, x.div);
+        let v = zat(p.val[O_OUT][i]);
+        let got = if x.change {
+            let fvk = if x.wrong_owner { k.o[(x.key as usize + 1) % k.o.len()].fvk.clone() } else { ok.fvk.clone() };
+            b.add_orchard_change_output::<Infallible>(fvk, ovk_o(&x.ovk), to, v, memo_bytes(&x.memo)).map_err(classify_add)
+        } else {
+            b.add_orchard_output::<Infallible>(ovk_o(&x.ovk), to, v, memo_bytes(&x.memo)).map_err(classify_add)
+        };
+        check_add("orchard output", i, p.exp[O_OUT][i], got)?;
+    }
+    for (i, x) in c.i_in.iter().enumerate() {
+        let got = b.add_ironwood_spend::<Infallible>(k.o[x.key as usize].fvk.clone(), w.i_notes[i].note).map_err(classify_add);
+        check_add("ironwood spend", i, p.exp[I_IN][i], got)?;
+    }
+    for (i, x) in c.i_out.iter().enumerate() {
+        let to = k.o[x.key as usize].address(x.internal, x.div);
+        let got = b.add_ironwood_output::<Infallible>(ovk_o(&x.ovk), to, zat(p.val[I_OUT][i]), memo_bytes(&x.memo)).map_err(classify_add);
+        check_add("ironwood output", i, p.exp[I_OUT][i], got)?;
+    }
+    Ok(DeferredStep::Ready(Box::new(b)))
+}
+
+fn finish_deferred<FR: FeeRule>(c: &Case, b: DeferredPcztBuilder<LocalNetwork>, rule: &FR) -> Result<Outcome, Fail>
+where
+    FR::Error: FeKind,
+{
+    // `get_fee` is documented as the fee "as a function of the spends and outputs added so far":
+    // it must be the fee that `build_for_pczt` then enforces
+    let announced = b.get_fee(rule);
+    let rng = ChaCha20Rng::from_seed(c.seed);
+    Ok(match b.build_for_pczt(rng, rule) {
+        Ok(r) => {
+            vensure!(announced.is_ok(), "deferred-get-fee-disagrees-with-build", "get_fee failed with {:?} but build_for_pczt succeeded", announced.as_ref().err());
+            Outcome::DeferredPczt(Box::new(r), announced.map(|f| f.into_u64()).unwrap_or(0))
+        }
+        Err(e) => Outcome::Err(map_err(e)),
+    })
+}
+
 /// `None`: the builder rejected a proposal that the plan tolerantly assumed accepted; re-plan.
 pub fn run(c: &Case, p: &Plan, w: &World) -> Result<Option<Outcome>, Fail> {
+    if c.engine == Engine::Deferred {
+        let step = match catch(|| drive_deferred(c, p, w)) {
+            Ok(r) => r?,
+            Err(pm) => vfail!(format!("builder-panic:{}", panic_site(&pm)), "panic while configuring the deferred builder: {pm}"),
+        };
+        let b = match step {
+            DeferredStep::Ready(b) => *b,
+            DeferredStep::Refused(e) => return Ok(Some(Outcome::Err(e))),
+        };
+        let out = catch(|| match &c.rule {
+            Rule::Standard => finish_deferred(c, b, &zip317::FeeRule::standard()),
+            Rule::NonStd { marginal, grace, std_in, std_out } => {
+                let r = zip317::FeeRule::non_standard(zat(*marginal), *grace, *std_in, *std_out).expect("harness: non-zero standard sizes");
+                finish_deferred(c, b, &r)
+            }
+            Rule::Fixed(f) => finish_deferred(c, b, &fixed::FeeRule::non_standard(zat(*f))),
+        });
+        return Ok(Some(match out {
+            Ok(o) => o?,
+            Err(pm) => Outcome::Panic(pm),
+        }));
+    }
     let b = match catch(|| drive(c, p, w)) {
         Ok(r) => r?,
         Err(pm) => vfail!(format!("builder-panic:{}", panic_site(&pm)), "panic while configuring the builder: {pm}"),
